@@ -203,15 +203,6 @@ var solvers = []solverSpec{
 	}},
 }
 
-// z3 5.1.0 was observed (on this code base, see DESIGN.md) to answer "unsat" on a
-// satisfiable-looking vacuity query, depending on seed and arithmetic back end, while
-// z3 4.8.12 and cvc5 did not. An "unsat" that only z3 5.1.0 gives is therefore accepted
-// only if z3 5.1.0 repeats it under these different configurations.
-var z3newConfirm = [][]string{
-	{"smt.random_seed=3"},
-	{"smt.random_seed=5", "smt.arith.solver=2"},
-}
-
 func runOne(sp solverSpec, file string, timeoutS int, extra ...string) (status, out string, secs float64) {
 	ctx, cancel := context.WithTimeout(context.Background(), time.Duration(timeoutS+2)*time.Second)
 	defer cancel()
@@ -243,8 +234,7 @@ func runOne(sp solverSpec, file string, timeoutS int, extra ...string) (status, 
 	return
 }
 
-// Solve runs the portfolio on one query: z3 4.8.12, then z3 5.1.0 (an unsat of which
-// needs confirmation, see above), then cvc5. all=true runs every back end (thorough tier).
+// Solve runs the portfolio on one query: z3 4.8.12, then z3 5.1.0, then cvc5. all=true runs every back end (thorough tier).
 func Solve(dir, name, script string, timeoutS int, all bool) SolverResult {
 	file := filepath.Join(dir, name+".smt2")
 	if err := os.WriteFile(file, []byte(script), 0o644); err != nil {
@@ -257,16 +247,6 @@ func Solve(dir, name, script string, timeoutS int, all bool) SolverResult {
 	for _, sp := range solvers {
 		st, out, secs := runOne(sp, file, timeoutS)
 		total += secs
-		if st == "unsat" && sp.name == "z3-new-5.1.0" && !decided {
-			for _, cfg := range z3newConfirm {
-				st2, _, secs2 := runOne(sp, file, timeoutS, cfg...)
-				total += secs2
-				if st2 != "unsat" {
-					st = "unconfirmed-unsat"
-					break
-				}
-			}
-		}
 		res.All[sp.name] = st
 		outs = append(outs, "["+sp.name+"] "+firstLines(out, 40))
 		if st == "unsat" || st == "sat" {
